@@ -426,7 +426,7 @@ func report(o *options, p *Prog, db *ContractDB, units []*Unit, known []KnownFin
 		}
 	}
 	// baseline obligations of hand-written kinds that vanished
-	if haveBaseline && o.only == "" {
+	if haveBaseline && o.only == "" && !o.baseline {
 		var missing []string
 		for name := range baseline {
 			if !seen[name] && !seenStem[oblStem(name)] && handKind(name) {
